@@ -152,6 +152,8 @@ class SimpleCoating(BaseCoating):
             rays (RealRays): The rays after reflection.
         """
         rays.i *= self.reflectance
+        # polarized rays follow the change of direction (identity Jones matrix)
+        rays.update()
         return rays
 
     def transmit(self, rays: RealRays, nx: np.ndarray = None,
@@ -167,6 +169,8 @@ class SimpleCoating(BaseCoating):
             rays (RealRays): The rays after transmission.
         """
         rays.i *= self.transmittance
+        # polarized rays follow the change of direction (identity Jones matrix)
+        rays.update()
         return rays
 
     def to_dict(self):
